@@ -13,7 +13,7 @@ from datetime import date, datetime, timedelta, timezone
 from decimal import Decimal
 
 PROP = "C18"
-HEADER = ("Require Import Codec CodecChk Gen_Css. From Coq Require Import List ZArith NArith Bool. Import ListNotations.\n"
+HEADER = ("Require Import Codec Typed CodecUnit CodecChk Gen_Css. From Coq Require Import List ZArith NArith Bool. Import ListNotations.\n"
           "Open Scope N_scope.\nDefinition chk := chk18 css3_colormap.\n")
 LAYER = {1: "round-trip: decode(encode(x)) is not x, or a decoder returns a wrong value for a string of the lexical form",
          2: "lexical: an encoded string, or a string accepted by a decoder, is outside the ODF lexical form of its datatype",
@@ -132,11 +132,35 @@ def run_case(M, kind, arg):
     raise Skip("unknown kind " + kind)
 
 
-UNIT_KINDS = ()
+UNIT_KINDS = ("unitstr", "unitdec")
+
+
+def c_dec(d):
+    sg, digits, exp = d.as_tuple()
+    return "(mkdec %s %d %s)" % ("true" if sg else "false", int("".join(map(str, digits)) or "0"), cz(exp))
+
+
+def abs_unit(u):
+    if u is None:
+        return None
+    if not (isinstance(u.value, Decimal) and u.value.is_finite() and isinstance(u.unit, str)):
+        raise Skip("not a finite length")
+    return "(%s, %s)" % (c_dec(u.value), cstr(u.unit))
 
 
 def run_unit_case(M, kind, arg):
-    raise Skip("unit cases not built")
+    U = M["datatype"].Unit
+    if kind == "unitstr":
+        value, unit = arg
+        value = Decimal(value) if isinstance(value, str) else value
+        u = call(U, value, unit)
+        if u is None or not u.value.is_finite():
+            raise Skip("Unit() refused the value")
+        enc = call(str, u)
+        back = call(U, enc)
+        return "CUnitStr %s %s %s %s" % (c_dec(u.value), cstr(u.unit), cstr(enc), copt(abs_unit(back)))
+    out = call(U, arg)
+    return "CUnitDec %s %s" % (cstr(arg), copt(abs_unit(out)))
 
 
 # ---------------------------------------------------------------- direct Python oracle of the property (used when the Coq side breaks)
@@ -211,7 +235,15 @@ def klass(kind, arg):
 
 
 def unit_klass(kind, arg):
-    return kind
+    if kind == "unitstr":
+        v = arg[0]
+        d = Decimal(v) if isinstance(v, str) else Decimal(str(v))
+        return "Unit.str/" + ("negative" if d.is_signed() else "exponent" if "E" in str(d) else "plain")
+    t = arg
+    if any(ord(c) > 127 for c in t): return "Unit.parse/non-ascii"
+    if t.startswith("-"): return "Unit.parse/negative"
+    if "e" in t.lower() and any(c.isdigit() for c in t.lower().split("e", 1)[1]): return "Unit.parse/exponent"
+    return "Unit.parse/" + ("valid" if re.fullmatch(r"(\d+(\.\d*)?|\.\d+)[A-Za-z%]*", t) else "malformed")
 
 
 # ---------------------------------------------------------------- generators
@@ -272,7 +304,7 @@ def gen_inputs(tier, rng, css):
     secs = {0, 1, 2, 9, 10, 59, 60, 61, 99, 100, 3599, 3600, 3601, 86399, 86400, 86401, 359999, 360000, 360001, 31535999, 31536000,
             TD_MAX_US // 10 ** 6, TD_MAX_US // 10 ** 6 - 1, TD_MAX_US // 10 ** 6 - 3599, TD_MAX_US // 10 ** 6 - 86399}
     hours = [2, 9, 10, 23, 24, 25, 99, 100, 101, 999, 1000, 9999, 10 ** 5, 10 ** 6, 2 ** 22, 2 ** 22 + 1, 2 ** 23, 10 ** 8, 2 ** 31, 2 ** 32, 2 ** 33, 2 ** 34, 23999999999]
-    hours += [rng.randint(2, 23999999999) for _ in range(40 if q else 4000)]
+    hours += [rng.randint(2, 23999999999) for _ in range(40 if q else 1500)]
     for n in hours:
         for d in (-1, 0, 1, -60, 60, -61, 59):
             if 0 <= 3600 * n + d <= TD_MAX_US // 10 ** 6: secs.add(3600 * n + d)
@@ -280,9 +312,10 @@ def gen_inputs(tier, rng, css):
         secs.update(range(0, 90061))            # every second of a day and an hour more: all carries
     for s in sorted(secs):
         add("dur", s * 10 ** 6)
-        if s and -s * 10 ** 6 >= TD_MIN_US: add("dur", -s * 10 ** 6)
+        # negatives: every lattice point; of the exhaustive thorough sweep every 4th second
+        if s and -s * 10 ** 6 >= TD_MIN_US and (q or s > 90061 or s % 4 == 3 or s % 3600 in (0, 1, 3599) or s < 7300): add("dur", -s * 10 ** 6)
     add("dur", TD_MIN_US); add("dur", TD_MIN_US + 10 ** 6); add("dur", TD_MIN_US + 3600 * 10 ** 6 - 10 ** 6)   # timedelta.min is -999999999 days exactly
-    for _ in range(300 if q else 30000):
+    for _ in range(300 if q else 15000):
         s = rng.choice([rng.randint(-10 ** 5, 10 ** 5), rng.randint(-10 ** 9, 10 ** 9), rng.randint(-86400 * 365 * 200, 86400 * 365 * 200),
                         rng.randint(TD_MIN_US // 10 ** 6, TD_MAX_US // 10 ** 6)])
         add("dur", s * 10 ** 6)
@@ -293,10 +326,10 @@ def gen_inputs(tier, rng, css):
         add("dur", rng.choice([1, -1]) * u)
     # ---- duration decoder: hand-made, grammar-generated, mutated
     for t in DUR_HAND: add("durdec", t)
-    for _ in range(400 if q else 20000):
+    for _ in range(400 if q else 12000):
         t = rand_dur_text(rng); add("durdec", t)
         if rng.random() < .7: add("durdec", mutate(rng, t, DUR_MUT))
-    for _ in range(200 if q else 10000):
+    for _ in range(200 if q else 6000):
         add("durdec", "".join(rng.choice(DUR_MUT) for _ in range(rng.randint(0, 8))))
     if not q:
         for n in range(0, 5):                        # all strings up to length 4 over a small alphabet
@@ -329,7 +362,7 @@ def gen_inputs(tier, rng, css):
     for off in offs:
         add("dt", (2024, 1, 31, 10, 0, 0, rng.choice(micros), off))
         add("dt", (rng.choice(years), 12, 31, 23, 59, 59, 0, off))
-    for _ in range(500 if q else 40000):
+    for _ in range(500 if q else 25000):
         y = rng.randint(1, 9999); m = rng.randint(1, 12)
         t = (y, m, rng.randint(1, last_day(y, m)), rng.randint(0, 23), rng.randint(0, 59), rng.randint(0, 59), rng.choice(micros + [rng.randint(0, 999999)]),
              rng.choice(offs + [rng.randint(-86399, 86399), 60 * rng.randint(-1439, 1439)]))
@@ -338,7 +371,7 @@ def gen_inputs(tier, rng, css):
     # ---- date / datetime decoders on arbitrary text
     for t in DT_HAND:
         add("dtdec", ("DateTime", t)); add("dtdec", ("Date", t))
-    for _ in range(300 if q else 15000):
+    for _ in range(300 if q else 10000):
         y = rng.randint(1, 9999); m = rng.randint(1, 12)
         t = "%04d-%02d-%02d" % (y, m, rng.randint(1, last_day(y, m)))
         if rng.random() < .8:
@@ -354,9 +387,9 @@ def gen_inputs(tier, rng, css):
         add("rgb", (v, 0, 0)); add("rgb", (0, v, 0)); add("rgb", (255, 255 - v, v))
     for t in itertools.product([0, 1, 9, 10, 15, 16, 127, 128, 254, 255], repeat=3) if not q else itertools.product([0, 15, 16, 255], repeat=3): add("rgb", t)
     for t in [(-1, 0, 0), (0, 256, 0), (0, 0, 1000), (255, 255, 256), (-255, 0, 0)]: add("rgb", t)
-    for _ in range(200 if q else 20000): add("rgb", (rng.randint(0, 255), rng.randint(0, 255), rng.randint(0, 255)))
+    for _ in range(200 if q else 12000): add("rgb", (rng.randint(0, 255), rng.randint(0, 255), rng.randint(0, 255)))
     for t in HEX_HAND: add("hexdec", t)
-    for _ in range(300 if q else 15000):
+    for _ in range(300 if q else 8000):
         t = "#" + "".join(rng.choice("0123456789abcdefABCDEF") for _ in range(6))
         add("hexdec", t); add("hexdec", mutate(rng, t, "0123456789abcdefABCDEFgGxX#+-_ ٠٩Ａéz"))
     for name, _v in css:
@@ -368,8 +401,31 @@ def gen_inputs(tier, rng, css):
     return inp
 
 
+UNIT_HAND = ["1.847mm", "2.54cm", "10cm", "283px", "-0.5cm", "1E+5cm", "1e3mm", "1c2m", "１２cm", "²cm", ".5in", "1.cm", "1..2cm", "", "cm", "1.5", "+1cm",
+             "1 cm", " 1cm", "1cm ", "0cm", "-0cm", "00.50pt", "-.5pt", "-5", "5%", "12.5%", "1.5e", "1-cm", "--1cm", "1.2.3cm", ".", "-", "-cm", "1cm2", "٣cm", "1,5cm", "0.0000001in"]
+
+
 def gen_unit_inputs(tier, rng):
-    return []
+    q = tier == "quick"
+    inp = []
+    decs = ["0", "1", "-1", "1.10", "-0.001", "0.5", "-0.5", "100", "1E+5", "-1E+2", "1E-7", "0.0000001", "123456789.123456789", "0.00", "-0", "0E+2", "12E+1", "5E-3", "2.54", "0.035"]
+    for d in decs:
+        for u in ("cm", "mm", "in", "pt", "px", "%"):
+            inp.append(("unitstr", (d, u)))
+    for v in (1, 3.14, -2, 1e-7, 1e22, 0.1, 2.5, -0.75, 10):
+        inp.append(("unitstr", (v, "cm")))
+    for _ in range(100 if q else 5000):
+        d = Decimal((rng.randint(0, 1), tuple(rng.randint(0, 9) for _ in range(rng.randint(1, 12))), rng.randint(-12, 4)))
+        inp.append(("unitstr", (str(d), rng.choice(["cm", "mm", "in", "pt", "pc", "px"]))))
+    for t in UNIT_HAND:
+        inp.append(("unitdec", t))
+    for _ in range(200 if q else 10000):
+        t = rng.choice(["", "", "-"]) + rng.choice([str(rng.randint(0, 999)), "%d.%s" % (rng.randint(0, 99), "".join(rng.choice("0123456789") for _ in range(rng.randint(0, 5)))),
+                                                      "." + str(rng.randint(0, 999))]) + rng.choice(["cm", "mm", "in", "pt", "pc", "px", "", "%"])
+        inp.append(("unitdec", t))
+        if rng.random() < .6:
+            inp.append(("unitdec", mutate(rng, t, "0123456789.-+ eEcmpt%٣")))
+    return inp
 
 
 # ---------------------------------------------------------------- the check
@@ -407,16 +463,17 @@ def run(tier, seed, replay=None):
     errors = gen_errors + errors
     hard = {i: c for i, c in bad.items() if c != LENIENT}
     known = {e["key"]: e for e in common.known_findings(PROP)}
-    violations, known_seen, reported = [], [], set()
+    violations, known_seen, reported, per_group = [], [], set(), {}
     for i in sorted(hard):
         kind, arg = kept[i]; key = klass(kind, arg)
         if key in known:
             if key not in reported:
                 reported.add(key); known_seen.append("%s (%s): %s" % (key, LAYER[hard[i]].split(":")[0], known[key]["description"]))
             continue
-        if (key, hard[i]) in reported or len(violations) >= 6:
+        group = key.split("/")[0]
+        if (key, hard[i]) in reported or per_group.get(group, 0) >= 3 or len(violations) >= 16:
             continue
-        reported.add((key, hard[i]))
+        reported.add((key, hard[i])); per_group[group] = per_group.get(group, 0) + 1
         rp = common.write_replay(PROP, seed, "%d" % i, dict(layer=LAYER[hard[i]], code=hard[i], input_class=key, case=[kind, arg],
                                                             coq_case=cases[i], known_finding_key=None))
         violations.append((rp, False))
@@ -437,7 +494,7 @@ def run(tier, seed, replay=None):
         trusted_base=["CPython: int / int true division is correctly rounded binary64 and '%02d' % float truncates (CodecFloat.v states what follows from that)",
                       "CPython datetime.isoformat / fromisoformat, modelled by Codec.isoformat / parse_iso on the xsd:date / xsd:dateTime subset and validated here on every case",
                       "re (the repaired Duration.decode is one regular expression; Codec.dur_decode is its hand-written reader)",
-                      "modelled in Codec.v: Boolean, Date, DateTime, Duration encode/decode, hex2rgb, rgb2hex, hexa_color; CSS3_COLORMAP is regenerated from const.py into Gen_Css.v on this run (%d names)" % len(css)],
+                      "modelled in Codec.v / CodecUnit.v: Boolean, Date, DateTime, Duration encode/decode, hex2rgb, rgb2hex, hexa_color, Unit(str) and str(Unit); CSS3_COLORMAP is regenerated from const.py into Gen_Css.v on this run (%d names)" % len(css)],
         evaluations=len(cases), distinct_nontrivial=distinct,
         rule="boundary lattices exhaustively (second/minute/hour/day carries and 3600n-1, 3600n, 3600n+1 up to timedelta.max, both signs; years 1..9999 x month ends x leap days; "
              "offsets incl. +-23:59:59 and (thorough) every whole minute; 256 values of each colour channel; every CSS name in two spellings), random values inside, "
